@@ -497,9 +497,13 @@ func c12(c *an.Ctx) {
 			for _, f := range []string{"shardLimit", "dynamicLimit"} {
 				for _, r := range an.FieldRefs(fn, sgPath(), "DB", f) {
 					o.Site(r.Instr)
-					if _, ok := allowLimit[full]; !ok {
+					_, listed := allowLimit[full]
+					switch {
+					case (r.Kind == "load" || (r.Kind == "addr" && onlyReadThrough(r.Instr))) && an.RelPkg(fn) == sg:
+						// reading the limit inside the package is harmless
+					case !listed:
 						o.FailAt(r.Instr, "%s touches DB.%s", full, f)
-					} else if r.Kind == "store" && !strings.Contains(full, "With") {
+					case r.Kind != "load" && !(r.Kind == "addr" && onlyReadThrough(r.Instr)) && !strings.Contains(full, "With"):
 						o.FailAt(r.Instr, "%s overwrites DB.%s", full, f)
 					}
 				}
@@ -783,4 +787,26 @@ func roots(x ssa.Value) []ssa.Value {
 	}
 	walk(x)
 	return out
+}
+
+// onlyReadThrough: instruction i takes the address of a (nested) field and that
+// address is only ever loaded from.
+func onlyReadThrough(i ssa.Instruction) bool {
+	fa, ok := i.(*ssa.FieldAddr)
+	if !ok {
+		return false
+	}
+	for _, r := range *fa.Referrers() {
+		switch x := r.(type) {
+		case *ssa.UnOp:
+		case *ssa.FieldAddr:
+			if !onlyReadThrough(x) {
+				return false
+			}
+		case *ssa.DebugRef:
+		default:
+			return false
+		}
+	}
+	return true
 }
